@@ -39,7 +39,44 @@ pub fn unescape(s: &str) -> String {
 
 pub struct Dot { pub nodes: Vec<(String, String)>, pub edges: Vec<(String, String, String)> }
 
-/// a reader for exactly what the `dot` crate writes: `    id[label="…"];` and `    a -> b[label="…"];`
+/// the attribute lists that follow the head of a statement: `[k="v"][k2="v2" k3=v3]…`, values quoted (with `\"`
+/// escapes) or bare; `None` when the text is not of that form
+fn read_attrs(mut rest: &str) -> Option<Vec<(String, String)>> {
+    let mut attrs = Vec::new();
+    loop {
+        rest = rest.trim_start();
+        if rest.is_empty() { return Some(attrs); }
+        rest = rest.strip_prefix('[')?;
+        loop {
+            rest = rest.trim_start_matches(|c: char| c == ' ' || c == '\t' || c == ',' || c == ';');
+            if let Some(r) = rest.strip_prefix(']') { rest = r; break; }
+            let eq = rest.find('=')?;
+            let key = rest[..eq].trim().to_string();
+            if key.is_empty() || key.contains(|c: char| c == '[' || c == ']' || c == '"') { return None; }
+            rest = rest[eq + 1..].trim_start();
+            if let Some(r) = rest.strip_prefix('"') {
+                // up to the first quote that is not escaped
+                let bytes = r.as_bytes();
+                let mut i = 0;
+                loop {
+                    if i >= bytes.len() { return None; }
+                    if bytes[i] == b'\\' { i += 2; continue; }
+                    if bytes[i] == b'"' { break; }
+                    i += 1;
+                }
+                attrs.push((key, unescape(r.get(..i)?)));
+                rest = &r[i + 1..];
+            } else {
+                let end = rest.find(|c: char| c == ' ' || c == ',' || c == ';' || c == ']')?;
+                attrs.push((key, rest[..end].to_string()));
+                rest = &rest[end..];
+            }
+        }
+    }
+}
+
+/// a reader of the statements the `dot` crate writes: `    id[label="…"];` and `    a -> b[label="…"];`, with any
+/// further attribute lists (`[shape="box"]`, `[style=…]`) — what is read is the label
 pub fn read_dot(text: &str) -> Option<Dot> {
     let mut d = Dot { nodes: vec![], edges: vec![] };
     let mut closed = false;
@@ -50,10 +87,11 @@ pub fn read_dot(text: &str) -> Option<Dot> {
         if closed { return None; }
         if l == "}" { closed = true; continue; }
         if l.starts_with("digraph") { continue; }
-        let lb = l.find("[label=\"")?;
-        if !l.ends_with("\"];") { return None; }
+        let lb = l.find('[')?;
         let head = &l[..lb];
-        let label = unescape(&l[lb + 8..l.len() - 3]);
+        let body = l[lb..].strip_suffix(';').unwrap_or(&l[lb..]);
+        let attrs = read_attrs(body)?;
+        let label = attrs.iter().find(|(k, _)| k == "label")?.1.clone();
         if let Some(arrow) = head.find(" -> ") {
             d.edges.push((head[..arrow].trim().to_string(), head[arrow + 4..].trim().to_string(), label));
         } else {
